@@ -283,7 +283,25 @@ def c18(tier, seed):
         for d in ("0", "10"):
             for sc in ("segments", "all"):
                 cfgs.append((sc, {"MIMALLOC_PURGE_DELAY": d, "MIMALLOC_DISALLOW_ARENA_ALLOC": "1"}))
+    # exact scenarios: whole segments freed at different times into 1..7 arenas over several rounds; a page in a live segment while new pages keep being allocated there
+    exact = []
+    for d in (["-1", "0", "10", "50"] if tier == "quick" else ["-1", "0", "1", "5", "10", "50", "100", "1000"]):
+        for res in ("64MiB", "128MiB", None):
+            e = {"MIMALLOC_PURGE_DELAY": d}
+            if res: e["MIMALLOC_ARENA_RESERVE"] = res
+            exact.append(("arenas", e))
+            if d == "10": exact.append(("arenas", dict(e, MIMALLOC_PURGE_DECOMMITS="0"))); exact.append(("arenas", dict(e, MIMALLOC_ARENA_PURGE_MULT="1")))
+        exact.append(("trickle", {"MIMALLOC_PURGE_DELAY": d}))
+        exact.append(("holes", {"MIMALLOC_PURGE_DELAY": d})); exact.append(("holes", {"MIMALLOC_PURGE_DELAY": d}))
+        if d not in ("-1", "0"): exact.append(("trickle", {"MIMALLOC_PURGE_DELAY": d, "MIMALLOC_PURGE_DECOMMITS": "0"}))
     cases = []; idx = 0
+    for v in variants:
+        for (sc, e) in exact:
+            for k in range(tier_n(tier, 4, 24)):
+                s = case_seed(seed, prop, 100000 + idx); idx += 1
+                cases.append(_drv_case(prop, "C18-%s-%s-%s-%d" % (sc, envname(e), v, s), v, ["--profile", "purge", "--seed", s, "--scenario", sc], env=e, timeout=300, crash_refutes=["C01"],
+                                       meta={"scenario": sc, "config": envname(e), "seed": s}))
+    idx = 0
     for v in variants:
         for (sc, e) in cfgs:
             for k in range(tier_n(tier, 1, 6)):
@@ -295,12 +313,20 @@ def c18(tier, seed):
     cov = seq_cov(cases)
     cov["purge_measurements"] = [dict(scenario=c.meta["scenario"], config=c.meta["config"], **(c.result or {}).get("purge", {})) for c in cases[:40]]
     cov["virtual_clock_ms_advanced"] = core.sum_field(cases, "clock_ms")
+    ex = [c for c in cases if c.meta["scenario"] in ("arenas", "trickle", "holes") and c.result]
+    cov["exact_scenarios"] = {"cases": len(ex), "freed_ranges_checked": core.sum_field(ex, "purge_exact", "ranges_checked"), "bytes_checked": core.sum_field(ex, "purge_exact", "bytes_checked"),
+                              "rounds": core.sum_field(ex, "purge_exact", "rounds"), "arena_counts_seen": sorted(set(int(c.result.get("purge_exact", {}).get("arenas", 0)) for c in ex))}
     return finish(prop, tier, seed, "exploration", v, cases, t0,
                   "a case = one option setting (purge_delay in {-1,0,5,10,100}, decommit/reset, arena multiplier) x one scenario (free whole pages / whole segments / everything of a 290 MiB working set); "
                   "the virtual clock (wrapped clock_gettime) is advanced far beyond the delay while ordinary alloc/free activity and non-forced mi_collect run; committed bytes = ledger pages in state RW "
                   "that mincore reports resident; the bytes a forced collect would return are the yardstick; violation = more than 30% (45% for the page scenario) of them still committed, or any purge "
-                  "call with delay -1; non-trivial = peak committed >= 64 MiB measured; distinct = (variant, scenario, config, seed)",
-                  lambda r, c: r.get("purge", {}).get("peak", 0) >= (64 << 20), cov,
+                  "call with delay -1; non-trivial = peak committed >= 64 MiB measured; distinct = (variant, scenario, config, seed). "
+                  "Exact scenarios: 'arenas' = huge blocks (a segment each) freed in random order with random virtual-time gaps into 1..7 arenas over 2..4 rounds, then only activity that frees no segment "
+                  "and non-forced collects: every freed range must have 0 committed resident bytes after (4 + 2 x arenas) arena delays; 'trickle' = pages inside a live segment are freed and afterwards "
+                  "new, larger pages are allocated in that segment at intervals shorter than the delay, nothing is freed: the freed pages must have 0 committed resident bytes once 3 delays have passed; 'holes' = 72 MiB of one-block pages (four size mixes), a subset freed by four "
+                  "patterns (random, every k-th kept, pages covering slice t mod 64 kept), after 3 delays one more page per segment is freed and every freed page of that segment must have 0 committed resident bytes; "
+                  "non-trivial for these = at least one freed range judged",
+                  lambda r, c: (r.get("purge", {}).get("peak", 0) >= (64 << 20)) or r.get("purge_exact", {}).get("ranges_checked", 0) > 0, cov,
                   SEQ_ASSUME + ["time is the wrapped clock_gettime; mimalloc reads no other clock for purging"])
 
 FAULT_CLASSES = {0: "mmap", 1: "munmap", 2: "mprotect", 3: "madvise"}
@@ -458,6 +484,65 @@ def mt_cov(cases):
         "option_settings": sorted(set(c.meta.get("config", "") for c in cases)),
     }
 
+
+# ---- tiny programs under scripted, preemption-bounded schedules (C02 / C08) -------------------------------------------------
+def tiny_cases(prop, tier, seed, n_progs=None, variants=("rel-h", "dbg-h")):
+    """two stages: (1) run every tiny program without preemption to learn how many switch points each thread executes;
+    (2) enumerate scripts: every single preemption of a freeing thread, every pair of preemptions of the same freeing thread at most 3 of
+    its own points apart (the shape of ABA / lost-update windows) with every choice of the threads that run in the window, and samples of
+    preemptions of the owner and of spurious weak-CAS failures."""
+    n_progs = n_progs if n_progs is not None else tier_n(tier, 24, 200)
+    build.build_many([("drv_mt", v) for v in variants])
+    rnd = random.Random(seed * 7919 + 13)
+    progs = [(rnd.randrange(1, 1 << 30), rnd.choice([3, 3, 4])) for _ in range(n_progs)]
+    def mk(v, prog, threads, script, label):
+        exe = build.driver("drv_mt", v)
+        args = [exe, "--scenario", "tiny", "--prop", prop, "--variant", v, "--seed", 1, "--mode", "baton", "--policy", "script", "--prog", prog, "--threads", threads, "--script", script,
+                "--debug", int(v.startswith("dbg"))]
+        return Case("%s-tiny-%s-p%d-t%d-%s" % (prop, v, prog, threads, label), args, env=san_env(v, prop, ""), timeout=60, crash_refutes=[prop],
+                    meta={"variant": v, "scenario": "tiny", "mode": "baton", "seed": prog, "script": script, "config": "tiny"})
+    base = [mk(variants[i % len(variants)], pg, th, "", "base") for i, (pg, th) in enumerate(progs)]
+    core.run_cases(base)
+    cases = list(base)
+    for i, c in enumerate(base):
+        t = (c.result or {}).get("tiny")
+        if not t: continue
+        pg, th = progs[i]; v = c.meta["variant"]
+        pts = t["points"]; nT = len(pts) - 1
+        scripts = []
+        for vic in range(1, nT + 1):
+            others = [x for x in range(0, nT + 1) if x != vic]
+            n = pts[vic]
+            for k1 in range(1, n + 1):
+                for t1 in others: scripts.append("%d:%d:%d" % (vic, k1, t1))
+                for k2 in range(k1 + 1, min(n, k1 + 3) + 1):
+                    for t1 in others:
+                        for t2 in others: scripts.append("%d:%d:%d,%d:%d:%d" % (vic, k1, t1, vic, k2, t2))
+        # the owner as the victim, in its racy phase (between opening the gate and the end of its own operations) and a little beyond
+        lo, hi = t["o_phase1"], min(t["o_phase2"] + 40, pts[0])
+        span = list(range(lo, hi + 1))
+        for _ in range(tier_n(tier, 40, 400)):
+            k1 = rnd.choice(span); t1 = rnd.randrange(1, nT + 1)
+            if rnd.random() < 0.5: scripts.append("0:%d:%d" % (k1, t1))
+            else: scripts.append("0:%d:%d,0:%d:%d" % (k1, t1, k1 + rnd.randrange(1, 4), rnd.randrange(1, nT + 1)))
+        # preemptions of two different victims, and spurious weak-CAS failures combined with a preemption
+        for _ in range(tier_n(tier, 40, 400)):
+            a, b = rnd.sample(range(1, nT + 1), 2)
+            scripts.append("%d:%d:%d,%d:%d:%d" % (a, rnd.randrange(1, max(1, pts[a]) + 1), rnd.choice([0, b]), b, rnd.randrange(1, max(1, pts[b]) + 1), rnd.choice([0, a])))
+        for _ in range(tier_n(tier, 30, 300)):
+            a = rnd.randrange(1, nT + 1); ncas = max(1, t["cas"][a])
+            scripts.append("%d:%d:s,%d:%d:%d" % (a, rnd.randrange(1, ncas + 1), a, rnd.randrange(1, pts[a] + 2), rnd.choice([x for x in range(0, nT + 1) if x != a])))
+        for j, sc in enumerate(scripts):
+            cases.append(mk(v if j % 3 else variants[(variants.index(v) + 1) % len(variants)], pg, th, sc, "s%d" % j))
+    return cases
+
+def tiny_cov(cases):
+    tc = [c for c in cases if c.meta.get("scenario") == "tiny"]
+    ok = [c for c in tc if c.result and "tiny" in c.result]
+    return {"tiny_program_executions": len(tc), "tiny_programs": len(set(c.meta["seed"] for c in tc)), "scripted_preemptions_fired": sum(c.result["tiny"].get("script_fired", 0) for c in ok),
+            "tiny_distinct_schedules": len(set((c.meta["seed"], c.result["sched"]["hash"]) for c in ok)),
+            "tiny_program_shapes": sorted(set(c.result["tiny"]["desc"] for c in ok))[:40]}
+
 MT_ASSUME = ["baton mode explores sequentially consistent interleavings at the allocator's atomic operations (incl. spurious weak-CAS failure); weaker hardware orderings are visible only as ThreadSanitizer reports",
              "the schedule controller only decides who runs when: every schedule is an execution the program can have", "only the executions listed were explored"]
 
@@ -482,12 +567,21 @@ def c02(tier, seed):
     cases = mt_cases(prop, "xfree", tier, seed)
     v = Verdict(prop)
     for c in core.run_cases(cases): v.add(c)
+    tiny = tiny_cases(prop, tier, seed)
+    for c in core.run_cases([c for c in tiny if c.exit is None]): pass
+    for c in tiny: v.add(c)
+    cases += tiny
     return mt_finish(prop, tier, seed, cases, v, t0,
-                     "a case = one execution of 2-4 (baton) or 4-12 (parallel) real threads that allocate from few size classes, free their own blocks, hand blocks to each other (lock-free mailboxes), "
+                     "tiny programs: one owner allocates 2-9 blocks of one size class (64 B .. 16 KB, so that pages are full or nearly full), gives 1-2 of them to each of 2-3 freeing threads and then does "
+                     "1-4 operations of its own (malloc / malloc+free / free / collect) while they free; afterwards it allocates the pages full again and verifies every block. Their schedules are enumerated, "
+                     "not sampled: every single preemption of a freeing thread at each of its switch points, every pair of preemptions of the same freeing thread at most 3 of its points apart with every "
+                     "choice of who runs in each window (the shape of ABA and lost-update windows), plus samples of owner preemptions, of two different victims and of spurious weak-CAS failures. "
+                     "Other cases: a case = one execution of 2-4 (baton) or 4-12 (parallel) real threads that allocate from few size classes, free their own blocks, hand blocks to each other (lock-free mailboxes), "
                      "verify and free received blocks and collect; baton mode: one thread runs at a time and every mi_atomic operation / yield / lock is a switch point of a seeded targeted, uniform or "
                      "PCT scheduler with spurious weak-CAS failures; parallel mode: injected yields/spins/sleeps; TSan build; oracles: unique-id byte patterns checked by the current holder, offline "
                      "replay of all alloc/free events in timestamp order against an interval map (no two live blocks intersect), crash handler, MI_DEBUG=3 invariants; non-trivial = >=10 allocations "
-                     "and >=10 context switches; distinct = schedule hash (sequence of (thread, function) at switches)", lambda r, c: _mt_nontrivial(r, c) and r.get("mt", {}).get("remote_frees", 0) >= 1)
+                     "and >=10 context switches (tiny programs: >= 1 remote free); distinct = schedule hash (sequence of (thread, function) at switches)",
+                     lambda r, c: (c.meta.get("scenario") == "tiny" or _mt_nontrivial(r, c)) and r.get("mt", {}).get("remote_frees", 0) >= 1, tiny_cov(tiny))
 
 @check("C08")
 def c08(tier, seed):
@@ -497,12 +591,19 @@ def c08(tier, seed):
     cases += mt_cases(prop, "heapdel", tier, seed, n_baton=tier_n(tier, 300, 10000), n_par=tier_n(tier, 4, 40), n_tsan=tier_n(tier, 2, 20), start=500000)
     v = Verdict(prop)
     for c in core.run_cases(cases): v.add(c)
+    # tiny programs with enumerated preemptions (see C02): at their end every block was freed and the owner's heap must count no used block
+    tiny = tiny_cases(prop, tier, seed + 77, n_progs=tier_n(tier, 12, 120))
+    for c in core.run_cases([c for c in tiny if c.exit is None]): pass
+    for c in tiny: v.add(c)
+    cases += tiny
     series = [(c.result or {}).get("areas_series") for c in cases if (c.result or {}).get("areas_series")][-3:]
     return mt_finish(prop, tier, seed, cases, v, t0,
                      "a case = one owner thread allocating from its own heap in rounds (<= L outstanding blocks) and 1-7 consumer threads freeing those blocks remotely while the owner keeps allocating, "
                      "freeing and collecting; at the end every block has been freed by whichever thread, the owner calls mi_heap_collect(heap,true) once and the heap walk must report no area; the per-round "
-                     "area counts must not keep growing (max of 2nd half > 2x max of 1st quarter + 16 AND positive slope = violation); same schedulers as C02; non-trivial = >=10 remote frees; distinct = schedule hash",
-                     lambda r, c: r.get("mt", {}).get("remote_frees", 0) >= 10, {"area_series_samples": series})
+                     "area counts must not keep growing (max of 2nd half > 2x max of 1st quarter + 16 AND positive slope = violation); same schedulers as C02; plus the tiny programs of C02 with enumerated preemptions "
+                     "(one or two preemptions of a freeing thread at every switch point and every window up to 3 points, samples of owner preemptions and spurious CAS failures), whose owner heap must count "
+                     "no used block after everything was freed and force-collected; non-trivial = >=10 remote frees (tiny: >=1); distinct = schedule hash",
+                     lambda r, c: r.get("mt", {}).get("remote_frees", 0) >= (1 if c.meta.get("scenario") == "tiny" else 10), dict(tiny_cov(tiny), area_series_samples=series))
 
 @check("C09")
 def c09(tier, seed):
